@@ -32,6 +32,22 @@ CLAIMS = {
         "DESIGN.md §4 C08"),
 }
 
+CLAIMS["C03"] = (
+    "field-flow analysis: symbolic evaluation of every structural method per concrete class with super()/self inlining along the C3 MRO; "
+    "signature comparison across parallel fields, twins and siblings; typestate of group metadata; dispatch agreement (ast)",
+    "Decides structurally, for every concrete labelled matrix class (21 in quick tier, 25 in thorough), that each structural "
+    "operation transforms the data and EVERY label array of the edited axis with the same numpy primitive, the same unmodified index operand "
+    "and the right axis, passes the other axes' labels and group metadata through by name, stores nothing to self when non-mutating, "
+    "performs no in-place element store into shared label arrays, resets (or recomputes from the sorted group array) the group metadata "
+    "whenever an axis layout changes, and that the axis-generic methods dispatch to exactly the axis-specific ones with all arguments forwarded. "
+    "Since every operation history is a composition of these methods and each preserves the label-data alignment invariant, the "
+    "property follows for all histories; numpy's own semantics are trusted.",
+    "Trusted: numpy take/delete/insert/append/concatenate/fancy-index semantics; CPython ast. Known findings (recorded, not repaired): "
+    "square-axis insert/incorp/concat act on one axis; square taxa x trait family drops the other axis' labels in non-mutating ops; "
+    "breeding-value matrices inherit mutators that bypass re-standardisation. Variance/covariance families with data-dependent axis "
+    "properties are analysed through their base classes only.",
+    "DESIGN.md §4 C03")
+
 NOT_YET = "rule set not built yet (build in progress; see DESIGN.md §8)"
 NA = {}
 
